@@ -63,6 +63,15 @@ Definition expected_push_shape : list string :=
 Theorem source_push_shape : gen_push_shape = [] \/ gen_push_shape = expected_push_shape.
 Proof. vm_compute. first [left; reflexivity | right; reflexivity]. Qed.
 
+(** the kind of access each entry point takes on the dispatcher list's RwLock: [PWrLock] (rebuild_interest_cache,
+    register_dispatch) blocks while there is a writer OR a reader; [PRgRLock] (register) only while there is a writer.  The
+    exclusive lock of a rebuild is what serialises it against the compute-and-push window of a registration. *)
+Definition expected_lock_kinds : list (string * string) :=
+  [("rebuild_interest_cache", "write"); ("register", "read"); ("register_dispatch", "write")].
+
+Theorem source_lock_kinds : gen_lock_kinds = [] \/ gen_lock_kinds = expected_lock_kinds.
+Proof. vm_compute. first [left; reflexivity | right; reflexivity]. Qed.
+
 Theorem source_points : gen_yield_ids = [] \/ gen_yield_ids = model_yield_ids.
 Proof. vm_compute. first [left; reflexivity | right; reflexivity]. Qed.
 
